@@ -28,6 +28,28 @@
 (*         huge, query key length /= keyLength, bitmap longer than key,    *)
 (*         query count mismatch).                                          *)
 (*                                                                         *)
+(*  scen   <<0, parameters, family, 0>> (tag SC, constant ScenOn): cases that *)
+(*         need state, a second node or several goroutines:                *)
+(*         syncc   the synchronisation CLIENT against a scripted peer      *)
+(*                 (answers to getLastBlock / getHighestCommonBlock /      *)
+(*                 getBlocksFromId: honest, empty, garbage, unknown or     *)
+(*                 non-32-byte ids, below the finalized height, height     *)
+(*                 2^32-1, the same block for ever, descending / gapped    *)
+(*                 heights, never answering), fast sync and block sync;    *)
+(*         commits admitted single commits KEPT in the pool (worlds with a *)
+(*                 validator joining / leaving inside the commit window),  *)
+(*                 then GetAggregateCommit, broadcastCertificate, the next *)
+(*                 block carrying the aggregate;                           *)
+(*         txpool  nonce ladders of peers' transactions kept in a small    *)
+(*                 pool, the application answering Ok / Invalid / Pending  *)
+(*                 / error now or later, then reorg, GetProcessable;       *)
+(*         burst   16 goroutines with valid and malformed inputs into the  *)
+(*                 stateful network entry points at the same time;         *)
+(*         amp     a repeated field of a valid message repeated 10^k times *)
+(*                 (growth of time and memory with the input size).        *)
+(*         Specified outcome of each: the call RETURNS (ok | reject), the  *)
+(*         node is alive afterwards, resources are given back.             *)
+(*                                                                         *)
 (* THE PROPERTY (total-function view).  The reference decoder StrictParse  *)
 (* and the shape predicate Nominal map EVERY case to ok | reject: there is *)
 (* no case with "no result".  The implementation must do the same: each    *)
@@ -43,7 +65,9 @@ EXTENDS Wire, Json, Integers
 CONSTANTS BasesFile,      \* JSON written by `c09 bases`: [bases |-> <<[name, type, schema, value, bytes]>>, ...]
           WireOn,         \* enumerate wire cases
           ShapesOn,       \* enumerate shape cases
-          MaxPathDepth    \* paths deeper than this are not deviated (their enclosing fields still are)
+          MaxPathDepth,   \* paths deeper than this are not deviated (their enclosing fields still are)
+          ScenOn,         \* enumerate scenario cases (tag SC; run by `c09 scen`)
+          ScenFull        \* scenario families as full products (thorough tier) instead of one deviation at a time
 
 VARIABLE x
 B(c) == IF c THEN 1 ELSE 0
@@ -61,6 +85,8 @@ Huge == Rep(9, 255) \o <<1>>                               \* 2^64-1, a legal va
 Big31 == <<128, 128, 128, 128, 8>>                         \* 2^31
 Big32 == <<128, 128, 128, 128, 16>>                        \* 2^32
 Big63 == Rep(9, 128) \o <<1>>                              \* 2^63
+Big62 == Rep(8, 128) \o <<64>>                             \* 2^62
+Big63p5 == <<133>> \o Rep(8, 128) \o <<1>>                 \* 2^63 + 5
 
 KeyClasses == {"canon", "padkey", "wrongnum", "wrongwt", "badwt", "key0", "keyhuge", "missing", "dup", "keyonly"}
 VarClasses == KeyClasses \cup {"padval", "ovf10", "ovf10b", "ovf11", "trunc", "contbit", "v-zero", "v-one", "v-max", "v-2p32", "v-2p63"}
@@ -69,7 +95,10 @@ LdClasses == KeyClasses \cup {"padlen", "ovf10", "ovf10b", "ovf11", "trunc", "le
                               "lenshort", "lenrest", "v-empty", "v-short", "v-long", "v-flip"}
 StrClasses == LdClasses \cup {"badutf8", "badutf8b", "overlong", "nonnfc", "nfcok"}
 RepClasses == LdClasses \cup {"emptyelem"}
-PackClasses == LdClasses \cup {"itempad", "itemovf", "itemcont"}
+\* a PACKED array (wire type 2 over varints / bools): the length prefix is the only thing a decoder knows about the number of
+\* items before it reads them - prefixes that announce far more than is present (a decoder that sizes its result from the
+\* prefix allocates what the peer asks for): one MiB more, 2^31, 2^62, 2^63 + 5, 2^64 - 1 (the last three also as Ld classes above)
+PackClasses == LdClasses \cup {"itempad", "itemovf", "itemcont", "lenp1m", "len2p62", "len2p63p5"}
 
 ClassesOfKind(k) ==
   CASE k \in {"uint", "uint32", "sint"} -> VarClasses
@@ -131,6 +160,9 @@ DevLd(num, d, c) ==
     [] c = "len2p31" -> K \o Big31 \o d
     [] c = "len2p32" -> K \o Big32 \o d
     [] c = "len2p63" -> K \o Big63 \o d
+    [] c = "lenp1m" -> K \o Varint(NatToNum(Len(d) + 1048576)) \o d
+    [] c = "len2p62" -> K \o Big62 \o d
+    [] c = "len2p63p5" -> K \o Big63p5 \o d
     [] c = "lenshort" -> K \o (IF d = <<>> THEN <<0>> ELSE Varint(NatToNum(Len(d) - 1))) \o d
     [] c = "lenrest" -> K \o Varint(NatToNum(Len(d) + 1)) \o d      \* one more than there is: eats the next key
     [] c = "v-empty" -> K \o <<0>>
@@ -273,9 +305,17 @@ SmtNominal(p) == \A i \in 1..7 : p[i] = 0
 \* rmtrw <<node index code (0,1,2,5,2^32,2^64-1), append path length code (0,1,2,3,40), right witness length code>>
 RwCases == {<<ix, ap, rw>> : ix \in 0..5, ap \in 0..4, rw \in 0..4}
 
-Families == <<"agg", "bls1", "ed", "rmt", "smt", "rmtrw">>
+\* smtq <<geometry (0: 4-byte keys, 6 leaves; 1: 32-byte keys, 2 000 leaves), query shape (0 as proved, 1 one proof query
+\*        twice with its key twice, 2 the same with another bitmap, 3 the same with another value, 4 two proof queries whose
+\*        bitmaps name the same node (a key and its sibling-prefix twin), 5 a query key twice but its proof query once,
+\*        6 all proof queries identical, 7 proof queries in reverse order), position of the edited query (0 first, 1 last,
+\*        2 middle), query keys (0 the caller's, 1 taken from the - possibly edited - proof)>>
+SmtqCases == {<<g, q, ps, kd>> : g \in 0..1, q \in 0..7, ps \in 0..2, kd \in 0..1}
+SmtqNominal(p) == p[2] = 0
+
+Families == <<"agg", "bls1", "ed", "rmt", "smt", "rmtrw", "smtq">>
 FamCases(fam) == CASE fam = "agg" -> AggCases [] fam = "bls1" -> Bls1Cases [] fam = "ed" -> EdCases
-                   [] fam = "rmt" -> RmtCases [] fam = "smt" -> SmtCases [] fam = "rmtrw" -> RwCases
+                   [] fam = "rmt" -> RmtCases [] fam = "smt" -> SmtCases [] fam = "rmtrw" -> RwCases [] fam = "smtq" -> SmtqCases
 ShapeNodes == IF ~ShapesOn THEN {} ELSE
   UNION { {<<0, <<f, q[1]>>, "node", 0>> : q \in FamCases(Families[f])} : f \in 1..Len(Families) }
 ShapeCasesOf(f, a) == {<<0, q, Families[f], 0>> : q \in {qq \in FamCases(Families[f]) : qq[1] = a}}
@@ -283,23 +323,73 @@ ShapeCasesOf(f, a) == {<<0, q, Families[f], 0>> : q \in {qq \in FamCases(Familie
 Nominal(fam, p) ==
   CASE fam = "agg" -> AggNominal(p) [] fam = "bls1" -> Bls1Nominal(p) [] fam = "ed" -> EdNominal(p)
     [] fam = "rmt" -> RmtNominal(p) [] fam = "smt" -> SmtNominal(p) [] fam = "rmtrw" -> FALSE
+    [] fam = "smtq" -> SmtqNominal(p)
+
+(* ------------------------------ scenario cases ------------------------- *)
+Count(p, from) == Cardinality({i \in from..Len(p) : p[i] # 0})
+\* syncc <<mode (0 fast sync, 1 block sync), answer to getLastBlock (0 honest, 1 empty, 2 garbage, 3 height 2^32-1 re-signed,
+\*         4 never, 5 a block without priority, 6 error), answer to getHighestCommonBlock (0 honest, 1 none, 2 unknown 32-byte
+\*         id, 3 5-byte id, 4 33-byte id, 5 below the finalized height, 6 the node's own tip, 7 never, 8 garbage, 9 error),
+\*         answer to getBlocksFromId (0 honest, 1 encoded empty list, 2 empty list in a non-empty encoding, 3 the same block
+\*         for ever, 4 descending one per answer, 5 gapped, 6 never, 7 garbage, 8 error, 9 all but the last, then empty)>>
+\* fast sync never asks for the last block.  One deviation at a time plus the pairs that reach the download with a foreign
+\* common block / an unreachable last block; ScenFull: the product.
+SyncAll == {<<m, l, h, b>> : m \in 0..1, l \in 0..6, h \in 0..9, b \in 0..9}
+SyncPairs == {<<0, 0, 6, 3>>, <<1, 0, 6, 3>>, <<0, 0, 6, 1>>, <<1, 3, 0, 1>>, <<1, 3, 0, 3>>, <<1, 3, 0, 6>>}
+SyncCases == {c \in SyncAll : (c[1] = 0 => c[2] = 0) /\ (ScenFull \/ Count(c, 2) <= 1 \/ c \in SyncPairs)}
+SyncNominal(p) == Count(p, 2) = 0
+\* commits <<world (0 one parameter set, 1 a validator JOINS inside the commit window, 2 a validator LEAVES inside it),
+\*           signers (0 three of the four permanent validators = the threshold, 1 two of them, 2 only the validator that joins /
+\*           leaves, 3 three permanent ones and that validator, 4 all), heights (0 the height GetAggregateCommit looks at first,
+\*           1 the precommitted height, 2 the first height of the new parameters, 3 height 1, 4 above the precommitted height,
+\*           5 every height of the window), defect (0 none, 1 one signature over another message, 2 one commit for another block
+\*           id, 3 every commit twice in one message, 4 the messages delivered twice)>>
+CommitAll == {<<w, sg, h, d>> : w \in 0..2, sg \in 0..4, h \in 0..5, d \in 0..4}
+CommitCases == {c \in CommitAll : ScenFull \/ c[4] = 0 \/ (c[2] \in {0, 3} /\ c[3] \in {0, 5})}
+CommitNominal(p) == p[2] = 0 /\ p[3] = 0 /\ p[4] = 0
+\* txpool <<ladder (0 nonces ascending, 1 descending, 2 with a gap, 3 around 2^64-1, 4 replacements of one nonce, 5 more
+\*          senders than the pool holds, 6 more of one sender than a sender may hold, 7 two senders interleaved with
+\*          duplicates), application (0 Ok, 1 Invalid for one, 2 Pending for all, 3 error for one, 4 / 5 / 6 Ok now and Invalid
+\*          later for the first / middle / last, 7 error later for the middle one)>>
+TxpoolCases == {<<l, a>> : l \in 0..7, a \in 0..7}
+TxpoolNominal(p) == p[1] = 0 /\ p[2] = 0
+\* burst <<entry group (0 request stream handler, 1 response stream handler, 2 gossip block / single commits, 3 single
+\*         commit validator, 4 all of them), inputs (0 valid only, 1 malformed only, 2 mixed)>>
+BurstCases == {<<g, v>> : g \in 0..4, v \in 0..2}
+ScenFamilies == <<"syncc", "commits", "txpool", "burst">>
+ScenCasesOf(fam) == CASE fam = "syncc" -> SyncCases [] fam = "commits" -> CommitCases [] fam = "txpool" -> TxpoolCases
+                      [] fam = "burst" -> BurstCases
+ScenNodes == IF ~ScenOn THEN {} ELSE {<<0, <<f>>, "snode", 0>> : f \in 1..Len(ScenFamilies)}
+\* amp <<base, path to a repeated / packed field, exponent>>: the LAST element of that field repeated 10^exponent times
+RepPaths(bi) == {p \in Paths(Bases[bi].schema, Bases[bi].value, 1) : FieldAt(Bases[bi].schema, p)[2] \in Repeated \cup Packed}
+AmpNodes == IF ~ScenOn THEN {} ELSE {<<bi, <<>>, "anode", 0>> : bi \in {b \in 1..NB : RepPaths(b) # {}}}
+AmpCasesOf(bi) == {<<bi, p, "amp", e>> : p \in RepPaths(bi), e \in 2..(IF ScenFull THEN 5 ELSE 4)}
+IsScen(c) == c[3] = "amp" \/ \E f \in 1..Len(ScenFamilies) : ScenFamilies[f] = c[3]
+ScenNominal(fam, p) == CASE fam = "syncc" -> SyncNominal(p) [] fam = "commits" -> CommitNominal(p) [] fam = "txpool" -> TxpoolNominal(p)
+                         [] fam = "burst" -> TRUE
 
 (* ------------------------------ verdicts ------------------------------- *)
 \* the total function: every case has a verdict
 Verdict(c) ==
-  IF c[1] = 0 THEN (IF Nominal(c[3], c[2]) THEN "ok" ELSE "reject")
+  IF c[3] = "amp" THEN "reject"                   \* (whether a decoder accepts 10^k elements is not the point: it answers)
+  ELSE IF IsScen(c) THEN (IF ScenNominal(c[3], c[2]) THEN "ok" ELSE "reject")
+  ELSE IF c[1] = 0 THEN (IF Nominal(c[3], c[2]) THEN "ok" ELSE "reject")
   ELSE IF StrictAccept(Bases[c[1]].schema, WireMsg(c)) THEN "ok" ELSE "reject"
 
 (* ------------------------------ behaviour ------------------------------ *)
-Structural(c) == c[3] \in {"root", "node", "cutnode"}
+Structural(c) == c[3] \in {"root", "node", "cutnode", "snode", "anode"}
 Init == x = <<0, <<>>, "root", 0>>
 Next == \/ /\ x[3] = "root"
-           /\ x' \in WireNodes \cup ShapeNodes
+           /\ x' \in WireNodes \cup ShapeNodes \cup ScenNodes \cup AmpNodes
+        \/ /\ x[3] = "snode"
+           /\ x' \in {<<0, q, ScenFamilies[x[2][1]], 0>> : q \in ScenCasesOf(ScenFamilies[x[2][1]])}
+        \/ /\ x[3] = "anode"
+           /\ x' \in AmpCasesOf(x[1])
         \/ /\ x[3] = "node"
            /\ x' \in (IF x[1] > 0 THEN WireCasesOf(x[1], x[2]) ELSE ShapeCasesOf(x[2][1], x[2][2]))
         \/ /\ x[3] = "cutnode"
            /\ x' \in CutsOfNode(x[1], x[4])
-        \/ /\ ~Structural(x) /\ x[1] > 0 /\ x[4] = 0 /\ ~(x[2] = <<>> /\ x[3] = "swap")
+        \/ /\ ~Structural(x) /\ ~IsScen(x) /\ x[1] > 0 /\ x[4] = 0 /\ ~(x[2] = <<>> /\ x[3] = "swap")
            /\ \E k \in CutSet(x[1], x[2], x[3]) \cup {0 - j : j \in InnerCuts(x[2], x[3])} : x' = <<x[1], x[2], x[3], k>>
 Spec == Init /\ [][Next]_x
 
@@ -310,7 +400,9 @@ Total ==
   /\ (x[1] > 0 /\ x[2] = <<>> /\ x[3] = "canon" /\ x[4] = 0 => v = "ok")                \* the valid message is accepted
   /\ (x[1] > 0 /\ x[2] = <<>> /\ x[3] = "canon" /\ x[4] = 0 =>                           \* and the reference encoder reproduces the real bytes
         Encode(Bases[x[1]].schema, Bases[x[1]].value) = Bases[x[1]].bytes)
-  /\ IF x[1] = 0
+  /\ IF IsScen(x)
+     THEN PrintT(<<"SC", ToJson([s |-> x[3], p |-> x[2], b |-> (IF x[1] = 0 THEN "" ELSE Bases[x[1]].name), k |-> x[4], ok |-> B(v = "ok")])>>)
+     ELSE IF x[1] = 0
      THEN PrintT(<<"SH", ToJson([s |-> x[3], p |-> x[2], ok |-> B(v = "ok")])>>)
      ELSE IF x[4] <= 0                   \* roots and nested cuts carry their bytes; plain truncations refer to their root
           THEN PrintT(<<"FZ", ToJson([s |-> Bases[x[1]].name, p |-> x[2], c |-> x[3], k |-> (IF x[2] = <<>> THEN 0 ELSE x[4]),
